@@ -38,6 +38,18 @@ def gen_close(rnd, i):
 
 
 def gen_req(rnd, i):
+    if rnd.random() < 0.2:
+        # a framing handler: it returns without consuming while the request (K bytes) is incomplete; requests arrive in pieces
+        K, m = rnd.choice([2, 3, 4]), rnd.randint(1, 3)
+        peer, left = [], K * m
+        while left > 0:
+            k = rnd.randint(1, min(2, left))
+            peer.append(['send', k])
+            left -= k
+        if rnd.random() < 0.5:
+            peer.append(['close'])
+        return {'kind': 'server', 'onconnect': rnd.random() < 0.2, 'ondisconnect': False, 'onrequest': True, 'onprepare': True, 'nclosecb': 1,
+                'connbody': 'return', 'handler': [{'consume': 0, 'need': K, 'then': 'return'}], 'actors': [], 'peer': peer, 'focus': True}
     n = rnd.randint(1, 4)
     peer = [['send', rnd.randint(1, 3)] for _ in range(n)]
     if rnd.random() < 0.6:
@@ -78,14 +90,21 @@ def gen_read(rnd, i):
     actors = [{'name': 'reader', 'ops': ops}]
     if rnd.random() < 0.3:
         actors += _closers(rnd, 1, 1)
-    return {'kind': rnd.choice(['client', 'client', 'fd']), 'onconnect': False, 'ondisconnect': False, 'onrequest': False,
-            'onprepare': True, 'nclosecb': 1, 'handler': [], 'actors': actors, 'peer': peer, 'eagertimers': rnd.random() < 0.5}
+    sc = {'kind': rnd.choice(['client', 'client', 'fd']), 'onconnect': False, 'ondisconnect': False, 'onrequest': False,
+          'onprepare': True, 'nclosecb': 1, 'handler': [], 'actors': actors, 'peer': peer, 'eagertimers': rnd.random() < 0.5}
+    if rnd.random() < 0.2 and any(p[0] == 'close' for p in peer):
+        # an application whose OnDisconnect joins its reader goroutines: a blocked reader must have been woken by then
+        sc.update({'kind': 'server', 'ondisconnect': True, 'discbody': 'waitreaders', 'eagertimers': False})
+    return sc
 
 
 def gen_flush(rnd, i):
     if rnd.random() < 0.15:
         # timeout-then-flush shape: a timed flush far above the socket buffer, a peer that drains it eventually, then another large flush
         ops = [['WriteT', rnd.choice([200000, 300000])], [rnd.choice(['Write', 'WriteT']), rnd.choice([200000, 300000])]]
+        if rnd.random() < 0.4:
+            # the second flush starts only when the poller has sent what the timed-out one left behind (its completion signal is stale)
+            ops.insert(1, ['WaitOut'])
         peer = [['drain', rnd.choice([65536, 200000, 400000])] for _ in range(rnd.choice([8, 30, 60, 120]))]
         return {'kind': rnd.choice(['client', 'fd']), 'onconnect': False, 'ondisconnect': False, 'onrequest': False, 'onprepare': True,
                 'nclosecb': 1, 'handler': [], 'actors': [{'name': 'flusher', 'ops': ops}], 'peer': peer, 'sndbuf': 4096, 'focus': True}
